@@ -5,9 +5,11 @@ package naga
 import (
 	"fmt"
 
+	"github.com/gogpu/naga/internal/zzclike"
 	"github.com/gogpu/naga/internal/zzspv"
 	"github.com/gogpu/naga/internal/zztpl"
 	zz "github.com/gogpu/naga/internal/zzverif"
+	"github.com/gogpu/naga/msl"
 	"github.com/gogpu/naga/spirv"
 )
 
@@ -231,4 +233,60 @@ func ZZ_C07_uniform_layout_spirv() {
 	zzUniformRun("SPIR-V", zzAllAttrs, func(src string, in []uint32, _ [3]uint32, _ []uint32) ([]uint32, bool) {
 		return zzRunSPIRVImages(src, in, zzUniformImage)
 	})
+}
+
+// Static layout of the emitted MSL struct declarations: every struct of the type tree —
+// including the trees with 16-bit members (f16, vecN<f16>), which the data-flow harnesses
+// above do not move values through — is laid out by the Metal rules (half 2 bytes, half3 8
+// bytes aligned 8, packed_half3 6 bytes aligned 2, char padding arrays) and every member
+// offset and the struct size must equal the WGSL values.
+func ZZ_C07_static_layout_msl() {
+	f16 := zz.Choice("f16", 2) == 1
+	types := zztpl.LayoutFocusTypes()
+	if f16 {
+		types = zztpl.LayoutF16FocusTypes()
+	}
+	t := types[zz.Choice("focus", len(types))]
+	attr := zztpl.LayoutAttrs[zz.Choice("attr", zzAllAttrs)]
+	zz.Assume(zztpl.LayoutValid(t, attr))
+	zz.Cell(fmt.Sprintf("static %s align=%d size=%d", t.WGSL(), attr[0], attr[1]))
+	root := zztpl.LayoutRoot([]zztpl.LMember{{Name: "m", T: t, Align: attr[0], Size: attr[1]}})
+	src := zztpl.LayoutDeclProgram(root, f16)
+	ast, err := Parse(src)
+	zz.Assert(err == nil, "layout program does not parse: "+src)
+	if err != nil {
+		return
+	}
+	mod, err := LowerWithSource(ast, src)
+	zz.Assert(err == nil, "layout program does not lower: "+src)
+	if err != nil {
+		return
+	}
+	text, _, err := msl.Compile(mod, msl.DefaultOptions())
+	zz.Assert(err == nil, "MSL backend rejected the layout program")
+	if err != nil {
+		return
+	}
+	prog, perr := zzclike.Parse(text, zzclike.MSL)
+	zz.Assert(perr == "", "emitted MSL is outside the reference grammar: "+perr)
+	if perr != "" {
+		return
+	}
+	for _, info := range zztpl.StructTable(root) {
+		offs, size, ok := prog.StructLayout(info.Name)
+		if !ok { // the namer appends "_" to names that end in a digit
+			offs, size, ok = prog.StructLayout(info.Name + "_")
+		}
+		zz.Assert(ok, "struct "+info.Name+" is not declared in the emitted MSL")
+		if !ok {
+			continue
+		}
+		for name, want := range info.Offsets {
+			got, have := offs[name]
+			zz.Assert(have, "member "+name+" of struct "+info.Name+" is missing in the emitted MSL")
+			zz.Assert(!have || got == want, "MSL struct "+info.Name+" places member "+name+" at an offset other than the WGSL layout")
+		}
+		zz.Assert(size == info.Size, "MSL struct "+info.Name+" has a size other than the WGSL size")
+	}
+	zz.Reach("end")
 }
